@@ -108,7 +108,8 @@ func runWorker(prop, scen, tier string, seed int64, tape []int, gomaxprocs int, 
 	defer cancel()
 	cmd := exec.CommandContext(ctx, workerBin, "-test.run", "^TestRun$", "-test.timeout", "0")
 	env := append(os.Environ(), "VERIF_PROP="+scen, "VERIF_TIER="+tier, "VERIF_SEED="+strconv.FormatInt(seed, 10),
-		"GODEBUG=randseednop=0,asyncpreemptoff=1", "GOMAXPROCS="+strconv.Itoa(gomaxprocs), "GOTRACEBACK=all")
+		"GODEBUG=randseednop=0,asyncpreemptoff=1", "GOMAXPROCS="+strconv.Itoa(gomaxprocs), "GOTRACEBACK=all",
+		"GOGC=off", "GOMEMLIMIT=3GiB") // no collector: a stop-the-world requeues the running goroutine at a wall-clock-dependent point
 	var rfPath string
 	if tape != nil {
 		f, err := os.CreateTemp("", "verif-replay-*.json")
